@@ -96,6 +96,10 @@ let eval fn args =
   in
   go !evaluators
 
+(* --shard i/n: evaluate only every n-th case (directives are always processed) *)
+let shard = ref (0, 1)
+let seen = ref 0
+
 let run_file path =
   let ic = open_in path in
   let total = ref 0 and mism = ref 0 and lineno = ref 0 in
@@ -114,6 +118,7 @@ let run_file path =
            in
            let args, obs = cut [] rest in
            if Ctx.handle_directive fn args obs then ()
+           else if (incr seen; !seen mod snd !shard <> fst !shard) then ()
            else begin
              incr total;
              let m = try eval fn args with Failure e -> "driver-error:" ^ e | Stack_overflow -> "driver-error:stack" in
